@@ -88,7 +88,7 @@ def rule_1(ctx):
                             env[p.name] = ctx.fold(p.default, f.module)
                         except Unfoldable:
                             pass
-                it = Interp(ctx.a, f.module, env, call_models=models)
+                it = Interp(ctx.a, f.module, env, call_models=models, inline_pkg=True, scope_fn=fn)
                 out = it.run(fn.body)
                 raised_xl = out.end == 'raise' and isinstance(out.value, Ref) and is_excel_error_ref(ctx, out.value.ref)
                 raised_py = out.end == 'raise' and not raised_xl
@@ -127,15 +127,19 @@ MODES = {'ROUND': 'ROUND_HALF_UP', 'ROUNDUP': 'ROUND_UP', 'ROUNDDOWN': 'ROUND_DO
 def rule_2(ctx):
     mm = ctx.mod('xlfunctions.math')
 
+    rdef = mm.func('_round')
+    rparams = func_params(rdef)
+    canon = dict(zip(rparams, ['number', 'num_digits', '_rounding']))
+
     def run(name, number):
         f = _reg(ctx, name)
         fn = f.node
         seen = {}
 
         def fake_round(*a, **kw):
-            params = ['number', 'num_digits', '_rounding']
-            b = dict(zip(params, a))
-            b.update(kw)
+            b = dict(zip(['number', 'num_digits', '_rounding'], a))
+            for k_, v_ in kw.items():
+                b[canon.get(k_, k_)] = v_
             seen.update(b)
             return Opaque('rounded')
         env = {}
@@ -143,9 +147,12 @@ def rule_2(ctx):
             if p.default is not None:
                 env[p.name] = ctx.fold(p.default, f.module)
         env[func_params(fn)[0]] = number
-        env.setdefault('num_digits', 0)
-        it = Interp(ctx.a, f.module, env, call_models={'pkg:xlfunctions.math:_round': fake_round})
+        if len(func_params(fn)) > 1:
+            env.setdefault(func_params(fn)[1], 0)
+        it = Interp(ctx.a, f.module, env, call_models={'pkg:xlfunctions.math:_round': fake_round}, scope_fn=fn)
         out = it.run(fn.body)
+        if 'num_digits' not in seen and len(rdef.args.defaults) >= 2:
+            pass
         return seen, out
 
     for name, mode in MODES.items():
@@ -209,7 +216,7 @@ def rule_2(ctx):
 def rule_3(ctx):
     for name in ('TRUNC', 'CEILING', 'FLOOR'):
         f = _reg(ctx, name)
-        fn = f.node
+        fn = ctx.inl(f.node)
         params = set(func_params(fn))
         deps = flow.Deps(fn)
         bad = []
@@ -219,7 +226,17 @@ def rule_3(ctx):
                 r_p = deps.params_reaching(b.right)
                 scaled = False
                 # number * 10**digits  /  number / significance  in binary floating point
-                if any(isinstance(x, ast.BinOp) and isinstance(x.op, ast.Pow) for x in ast.walk(b.right)) and l_p:
+                def has_pow(e, depth=0):
+                    if any(isinstance(x, ast.BinOp) and isinstance(x.op, ast.Pow) for x in ast.walk(e)):
+                        return True
+                    if depth < 2:
+                        for nm in names_in(e):
+                            for a_ in walk_local(fn):
+                                if isinstance(a_, ast.Assign) and any(isinstance(t, ast.Name) and t.id == nm for t in a_.targets) \
+                                        and nm not in func_params(fn) and has_pow(a_.value, depth + 1):
+                                    return True
+                    return False
+                if has_pow(b.right) and l_p:
                     scaled = True
                 if isinstance(b.op, ast.Div) and l_p and r_p and l_p != r_p:
                     scaled = True
